@@ -3,6 +3,7 @@ package main
 import (
 	"go/token"
 	"go/types"
+	"sort"
 	"strings"
 
 	"golang.org/x/tools/go/ssa"
@@ -78,12 +79,26 @@ func runC11(p *Program, e *Engine, r *Result, tier string) {
 	// the ring: array-typed field of the backend whose element has an integer and a string field
 	var ringF, idxF *types.Var
 	var ringLen int64
-	bst := ro.Backend.Underlying().(*types.Struct)
-	for i := 0; i < bst.NumFields(); i++ {
-		f := bst.Field(i)
+	// the ring may live in the backend struct or in a helper type it holds
+	var cands []*types.Var
+	for f := range ro.StructOf {
+		cands = append(cands, f)
+	}
+	sort.Slice(cands, func(i, j int) bool { return fieldStr(ro, cands[i]) < fieldStr(ro, cands[j]) })
+	for _, f := range cands {
 		if arr, ok := f.Type().Underlying().(*types.Array); ok {
 			if st, ok := arr.Elem().Underlying().(*types.Struct); ok && st.NumFields() == 2 {
-				ringF, ringLen = f, arr.Len()
+				hasStr, hasInt := false, false
+				for i := 0; i < 2; i++ {
+					if isString(st.Field(i).Type()) {
+						hasStr = true
+					} else if isUintType(st.Field(i).Type()) {
+						hasInt = true
+					}
+				}
+				if hasStr && hasInt {
+					ringF, ringLen = f, arr.Len()
+				}
 			}
 		}
 	}
@@ -127,8 +142,8 @@ func runC11(p *Program, e *Engine, r *Result, tier string) {
 	}
 	ringSlot := func(c *Ctx, v ssa.Value) (slot string, ok bool) {
 		p := stripIDs(c.path(v))
-		pre := "recv." + ringF.Name() + "["
-		if strings.HasPrefix(p, pre) && !strings.HasPrefix(p, pre+":") && strings.HasSuffix(p, "]."+ringPathField(ringF)) {
+		pre := "." + ringF.Name() + "["
+		if i := strings.Index(p, pre); i >= 0 && !strings.HasPrefix(p[i:], pre+":") && strings.HasSuffix(p, "]."+ringPathField(ringF)) && !strings.Contains(p[:i], "[") {
 			return strings.TrimSuffix(p, "."+ringPathField(ringF)), true
 		}
 		return p, false
